@@ -44,6 +44,9 @@ def case(draw, bool_only_ret=False, uncompute_opts=(True, False)):
         "prog": prog,
         "opt": draw(st.sampled_from(["default", "fast"])),
         "uncompute": draw(st.sampled_from(list(uncompute_opts))),
+        # QlassF.compile() called again on the same object: "flip" first compiles with the other uncompute
+        # setting, "same" with the same one; the circuit judged is the one the last compile() leaves
+        "recompile": draw(st.sampled_from([None, None, None, "flip", "same"])),
     }
 
 
@@ -60,8 +63,19 @@ def compile_case(case):
     nbits = sum(gen_prog.nbits(t) for _, t in prog["args"])
     if nbits > MAX_BITS:
         return "skip", {"status": "skip", "nontrivial": False, "features": feats + ["too-many-bits"]}
+    rec = case.get("recompile")
+    first = (not case["uncompute"]) if rec == "flip" else case["uncompute"]
     try:
-        qf, rej = progeval.compile_lib(src, case["opt"], to_compile=True, uncompute=case["uncompute"])
+        qf, rej = progeval.compile_lib(src, case["opt"], to_compile=True, uncompute=first)
+        if qf is not None and rec:
+            feats.append("recompile:" + rec)
+            with progeval.time_limit(20):
+                try:
+                    qf.compile(uncompute=case["uncompute"])
+                except progeval.Timeout:
+                    raise
+                except Exception as e:
+                    return "violation", {"status": "violation", "kind": "recompile-raises", "detail": {"src": src, "exc": repr(e), "recompile": rec}, "features": feats}
     except progeval.Timeout:
         return "skip", {"status": "skip", "nontrivial": False, "features": feats + ["timeout"]}
     if qf is None:
